@@ -20,6 +20,9 @@
     `h<i>` | `h-`  convex-hull certificate (`chkHullQuad` / `chkHullCubic`, tried only when the chord
               certificate needs `k > 1` and no violation is proved): index of the least factor below
               `k<i>` with which it accepts, `h-` = not tried / none
+    `e<0|1>` | `e-`  eps-free verdict, evaluated when the kind token ends in `e` (`qe` / `ce`: all cases of
+              the thorough tier, a sample of the quick tier): the convex-hull checker accepts with
+              `r2 = tol²` — every curve point PROVED within exactly `1·tol` of the polyline as emitted
     `x<c>.<j>` | `x-`  certified violation: the curve point at relative position `j/8` of the range of
               chord number `c` is farther than `tol + eps` (cubic: `tol + 2·eps`) from every segment
   Answer: `ok` (k0: within `1·tol + eps`, the property's clause PROVED for this input), `skip
@@ -27,6 +30,7 @@
   checker), `fail <kind>.flatten/certified-tolerance <class> …` (certified failing input).
 -/
 import LyonVerif.Model.Geom.FlattenCertExact
+import LyonVerif.Model.Geom.FlattenCertArc
 import LyonVerif.Model.RatScalar
 
 namespace Lyon.Drive.FlatChkIO
@@ -76,6 +80,17 @@ def hullW : Nat := 2
 /-- least bucket index below `kIdx` whose factor the hull checker accepts -/
 def hullBucket (accept : Rat → Bool) (tol : Rat) (kIdx : Nat) : Option Nat :=
   (List.range kIdx).find? (fun b => accept ((kBuckets.getD b 1 * tol) * (kBuckets.getD b 1 * tol)))
+
+def freeStr : Option Bool → String
+  | none => "e-"
+  | some b => "e" ++ fb b
+
+/-- eps-free verdict: the hull checker at `r2 = tol²` (already known when it was tried as second chance) -/
+def epsFree (eflag struct : Bool) (kIdx : Nat) (hIdx : Option Nat) (accept : Rat → Bool) (tol : Rat) : Option Bool :=
+  if !eflag || !struct then none
+  else if hIdx == some 0 then some true
+  else if kIdx == 0 then some (accept (tol * tol))
+  else some false
 
 def hullStr : Option Nat → String
   | none => "h-"
@@ -149,8 +164,9 @@ def handleQuad (v : Array String) : String :=
     -- second chance: the convex-hull certificate (theorem chk_hull_quad_sound_rat)
     let hIdx := if kIdx == 0 || !struct || viol.isSome then none else
       hullBucket (fun r2 => chkHullQuad q r2 hullMs hullW l) tol kIdx
+    let eFree := epsFree ((v.getD 0 "") == "qe") struct kIdx hIdx (fun r2 => chkHullQuad q r2 hullMs hullW l) tol
     let verdict := "s" ++ fb struct ++ ":v" ++ fb vtx ++ ":k" ++ toString kIdx ++ ":n" ++ kindCounts kinds
-      ++ ":" ++ hullStr hIdx ++ ":" ++ violStr viol
+      ++ ":" ++ hullStr hIdx ++ ":" ++ freeStr eFree ++ ":" ++ violStr viol
     answer "quad" claim cls verdict struct (vtx || hIdx.isSome) (hIdx.getD kIdx) viol ("(" ++ toString l.length ++ " segments)")
 
 /-- `c <claim> <class> tol tolq tolc eps P0 P1 P2 P3 m pieces` -/
@@ -190,14 +206,80 @@ def handleCubic (v : Array String) : String :=
     -- second chance: the convex-hull certificate on the cubic itself (theorem chk_hull_cubic_sound_rat)
     let hIdx := if kIdx == 0 || !struct || viol.isSome then none else
       hullBucket (fun r2 => chkHullCubic c r2 hullMs hullW gl) tol kIdx
+    let eFree := epsFree ((v.getD 0 "") == "ce") struct kIdx hIdx (fun r2 => chkHullCubic c r2 hullMs hullW gl) tol
     let verdict := "s" ++ fb struct ++ ":v" ++ fb vtx ++ ":k" ++ toString kIdx ++ ":n" ++ kindCounts kinds
-      ++ ":" ++ hullStr hIdx ++ ":" ++ violStr viol
+      ++ ":" ++ hullStr hIdx ++ ":" ++ freeStr eFree ++ ":" ++ violStr viol
     answer "cubic" claim cls verdict struct (vtx || hIdx.isSome) (hIdx.getD kIdx) viol
       ("(" ++ toString ps.length ++ " pieces, " ++ toString all.length ++ " segments)")
 
 def handle (v : Array String) : String :=
-  if v.getD 0 "" == "q" then handleQuad v
-  else if v.getD 0 "" == "c" then handleCubic v
+  if v.getD 0 "" == "q" || v.getD 0 "" == "qe" then handleQuad v
+  else if v.getD 0 "" == "c" || v.getD 0 "" == "ce" then handleCubic v
   else "MISMATCH unknown-kind"
+
+
+/-! ## arcs (`chk_arc`, Model/Geom/FlattenCertArc.lean, theorem `chk_arc_sound_rat`)
+
+`CHECK <id> chk_arc <claim> tol eps cx cy rx ry R w wflip p0 pe n (a b t0 t1 ua fa ub fb)*n`
+(`w`, `ua`, `ub`: half-angle tangents of the rotation / of the advice points, `…flip` 0|1).
+Verdict `s<0|1>:v<0|1>:k<i>`: structure (frame, chain, advice chain, advice on the unit circle),
+vertices within `eps` of `A(advice)`, least factor `k` for which every chord passes the sagitta test
+with `kt = k·tol + eps` (lyon chooses the step so that the sagitta EQUALS the tolerance: in floats it
+is then above it by rounding half of the time; `eps` absorbs that); `ok` iff `chkArc` itself accepts
+with `k = 1`: every arc point within `tol + 2·eps` of the polyline. -/
+
+namespace Arc
+open Lyon.ArcChk
+
+def rdBool (v : Array String) (i : Nat) : Bool := v.getD i "0" == "1"
+
+def rdArcSegs (v : Array String) : Nat → Nat → Option (List (ArcSeg Rat))
+  | 0, _ => some []
+  | n+1, i => do
+    let a ← rdPt v i
+    let b ← rdPt v (i+2)
+    let t0 ← rdRat v (i+4)
+    let t1 ← rdRat v (i+5)
+    let ua ← rdRat v (i+6)
+    let ub ← rdRat v (i+8)
+    let r ← rdArcSegs v n (i+10)
+    pure (⟨⟨a, b, t0, t1⟩, unitPt ua (rdBool v (i+7)), unitPt ub (rdBool v (i+9))⟩ :: r)
+
+def handle (v : Array String) : String :=
+  let claim := v.getD 0 ""
+  match (do
+    let tol ← rdRat v 1
+    let eps ← rdRat v 2
+    let c ← rdPt v 3
+    let rx ← rdRat v 5
+    let ry ← rdRat v 6
+    let R ← rdRat v 7
+    let w ← rdRat v 8
+    let p0 ← rdPt v 10
+    let pe ← rdPt v 12
+    let l ← rdArcSegs v (rdNat v 14) 15
+    let cs := unitPt w (rdBool v 9)
+    pure (tol, eps, (⟨c, rx, ry, cs.x, cs.y⟩ : Frame Rat), R, p0, pe, l)) with
+  | none => "skip non-finite"
+  | some (tol, eps, f, R, p0, pe, l) =>
+    let struct := decide (0 < R) && decide (f.rx * f.rx ≤ R * R) && decide (f.ry * f.ry ≤ R * R)
+      && (f.c * f.c + f.s * f.s == 1) && chainOK p0 0 pe 1 (l.map (·.sg)) && adviceChain l
+      && l.all (fun x => (x.pa.sqLen == 1) && (x.pb.sqLen == 1))
+    let vtx := l.all (fun x => decide ((x.sg.a - f.map x.pa).sqLen ≤ eps * eps)
+      && decide ((x.sg.b - f.map x.pb).sqLen ≤ eps * eps))
+    let ls := l.map (fun x => (x.pb - x.pa).sqLen)
+    let kIdx := firstBucket (fun k => ls.all (fun L2 =>
+      decide (L2 ≤ 4 * tau R (k * tol + eps) * (2 - tau R (k * tol + eps)))))
+    let verdict := "s" ++ fb struct ++ ":v" ++ fb vtx ++ ":k" ++ toString kIdx
+    -- the proved function itself, with the factor found
+    let accepted := kIdx < kBuckets.length && chkArc f R (kBuckets.getD kIdx 1 * tol + eps) eps p0 pe l
+    if verdict != claim then "MISMATCH claimed=" ++ claim ++ " verified=" ++ verdict
+    else if !struct then "fail arc.flatten/certified-structure generic " ++ verdict
+    else if !vtx then "skip chk_arc:vertex-eps " ++ verdict
+    else if !accepted then "skip chk_arc:k>4 " ++ verdict
+    else if kIdx == 0 then "ok " ++ verdict
+    else "skip chk_arc:k<=" ++ kNames.getD kIdx "?" ++ " " ++ verdict
+
+end Arc
 
 end Lyon.Drive.FlatChkIO
